@@ -281,9 +281,10 @@ func genCoremalCase(rng *Rng, maxOps int) (*CoreCase, error) {
 	return c, nil
 }
 
-func coremalEngine(o *Opts) {
+// coreprotoRun generates (or replays) histories and writes cases_<engine>_<shard>.{v,json,stats.json}.
+func coreprotoRun(o *Opts, engine, rule string, gen func(r *Rng, maxOps int) (*CoreCase, error), nontrivial func(c *CoreCase, nmal int) bool) {
 	rng := NewRng(o.Seed)
-	st := NewStats("coremal", o.Seed, "histories of the core engine with a dense malformed stream (about 27% of the requests: applications without user / with used or unknown ids or partitions, allocations and foreign allocations with unset, zero, negative or mixed resources, unknown or removed applications and nodes, placeholders without task group, releases of absent things with every termination type incl. out-of-range values, node operations on unknown and removed nodes) interleaved with valid traffic, scheduling cycles and timer firings; non-trivial = at least three requests the specification calls invalid were sent; distinct by hash of ops")
+	st := NewStats(engine, o.Seed, rule)
 	var all CoreCases
 	if o.Replay != "" {
 		readJSON(o.Replay, &all)
@@ -298,7 +299,7 @@ func coremalEngine(o *Opts) {
 			maxOps = 100
 		}
 		for i := 0; i < o.N; i++ {
-			c, err := genCoremalCase(rng.Fork(), maxOps)
+			c, err := gen(rng.Fork(), maxOps)
 			if err != nil {
 				st.Count("config-rejected")
 				continue
@@ -336,17 +337,25 @@ func coremalEngine(o *Opts) {
 			}
 			for _, e := range s.Events {
 				st.Count("ev." + e.Kind)
+				if e.Kind == "release" {
+					st.Count(fmt.Sprintf("ev.release.type%d", e.TType))
+				}
 			}
 		}
-		st.Case(fmt.Sprintf("%v", c.Ops), nmal >= 3, map[string]any{"ops": c.Ops, "nsteps": len(c.Steps)})
+		st.Case(fmt.Sprintf("%v", c.Ops), nontrivial(c, nmal), map[string]any{"ops": c.Ops, "nsteps": len(c.Steps)})
 	}
 	b.WriteString("Definition cases : list ohistory := [" + strings.Join(names, "; ") + "].\n")
 	b.WriteString("Definition M := Eval vm_compute in " + checker + " cases.\nPrint M.\n")
-	base := filepath.Join(o.OutDir, fmt.Sprintf("cases_coremal_%d", o.Shard))
+	base := filepath.Join(o.OutDir, fmt.Sprintf("cases_%s_%d", engine, o.Shard))
 	writeFile(base+".v", b.String())
 	writeJSON(base+".json", all)
 	st.CasesFile, st.CasesJSON = base+".v", base+".json"
 	st.Write(base + ".stats.json")
+}
+
+func coremalEngine(o *Opts) {
+	coreprotoRun(o, "coremal", "histories of the core engine with a dense malformed stream (about 27% of the requests: applications without user / with used or unknown ids or partitions, allocations and foreign allocations with unset, zero, negative or mixed resources, unknown or removed applications and nodes, placeholders without task group, releases of absent things with every termination type incl. out-of-range values, node operations on unknown and removed nodes) interleaved with valid traffic, scheduling cycles and timer firings; non-trivial = at least three requests built to be invalid were sent; distinct by hash of ops",
+		genCoremalCase, func(c *CoreCase, nmal int) bool { return nmal >= 3 })
 }
 
 func init() { engines["coremal"] = coremalEngine }
